@@ -1868,13 +1868,27 @@ static json stPair(const Node &nd, const ob::State *a, const ob::State *b, const
     return ev;
 }
 
+static std::string showHex(const Node &nd, const ob::State *s)
+{
+    char buf[64];
+    std::string r = "(";
+    for (double v : flatten(nd, s))
+    {
+        snprintf(buf, sizeof buf, "%a", v);
+        if (r.size() > 1)
+            r += ", ";
+        r += buf;
+    }
+    return r + ")";
+}
+
 static int record(const std::string &out, long n, const std::string &filter, bool interp)
 {
     vt::Trace tr(out);
     vt::Rng rng(vt::envSeed() * 7919 + (interp ? 17 : 3));
     long events = 0, skipped = 0;
     std::unordered_set<std::uint64_t> nontrivial;
-    std::map<std::string, long> perClass;
+    std::map<std::string, long> perClass, facts;
     for (auto &sh : shipped())
     {
         if (!filter.empty() && sh.name != filter)
@@ -1887,12 +1901,21 @@ static int record(const std::string &out, long n, const std::string &filter, boo
             cn = &cn->sub[0];
         auto pr = probes(nd, rng, interp);
         canned(sh.name, nd, interp, pr);
+        Airplane ap;
+        if (nd.fam == "airplane")
+            ap = airplane(nd);
         for (auto &p : pr)
         {
             for (long it = 0; it < (p.once ? 1 : n); ++it)
             {
                 Scoped a(nd), b(nd), c(nd);
                 p.make(a(), b(), c());
+                if (nd.fam == "constrained")
+                {
+                    onSphere(a());
+                    onSphere(b());
+                    onSphere(c());
+                }
                 if (!nd.sp->satisfiesBounds(a()) || !nd.sp->satisfiesBounds(b()) || !nd.sp->satisfiesBounds(c()))
                 {
                     ++skipped;
@@ -1903,6 +1926,32 @@ static int record(const std::string &out, long n, const std::string &filter, boo
                 json ev;
                 json fab = pairFlags(nd, a(), b());
                 bool nontriv = !fab.empty();
+                const bool newFam = nd.fam != "std" || sh.name == "Empty";
+                auto hexes = [&](bool three) {
+                    return " hex: a=" + showHex(nd, a()) + " b=" + showHex(nd, b()) + (three ? " c=" + showHex(nd, c()) : "");
+                };
+                auto emit = [&](json &e) {
+                    e["nan"] = nf;
+                    tr.emit(e);
+                    ++events;
+                    ++perClass[p.cls];
+                    if (nontriv)
+                        nontrivial.insert(fnv(sh.name + e["repro"].get<std::string>()));
+                };
+                if (nd.fam == "spacetime" && !interp)
+                {
+                    // ordered pairs (the space claims no triangle inequality): (a, b) and (b, c)
+                    ev = stPair(nd, a(), b(), p.cls, nf);
+                    ++facts[ev["iab"].get<bool>() ? "spacetime_infinite" : "spacetime_finite"];
+                    ev["repro"] = ev["repro"].get<std::string>() + hexes(false);
+                    emit(ev);
+                    nf = false;
+                    json ev2 = stPair(nd, b(), c(), p.cls, nf);
+                    ++facts[ev2["iab"].get<bool>() ? "spacetime_infinite" : "spacetime_finite"];
+                    nontriv = nontriv || !ev2["fab"].empty();
+                    emit(ev2);
+                    continue;
+                }
                 if (!interp)
                 {
                     json fbc = pairFlags(nd, b(), c()), fac = pairFlags(nd, a(), c());
@@ -1926,65 +1975,169 @@ static int record(const std::string &out, long n, const std::string &filter, boo
                         for (double x : ds)
                             ev["parts"].push_back(fx(x, nf));
                     }
-                    ev["repro"] = "a=" + show(nd, a()) + " b=" + show(nd, b()) + " c=" + show(nd, c());
+                    if (nd.fam == "airplane")
+                    {
+                        // straight-line distances of the positions: no flight path is shorter
+                        ev["eab"] = fx(euclid3(a(), b()), nf);
+                        ev["ebc"] = fx(euclid3(b(), c()), nf);
+                        ev["eac"] = fx(euclid3(a(), c()), nf);
+                        double len;
+                        for (auto pq : {std::make_pair(a(), b()), std::make_pair(b(), c()), std::make_pair(a(), c())})
+                            ++facts[ap.pathLength(pq.first, pq.second, len) ? "airplane_pairs_with_path" : "airplane_pairs_without_path"];
+                    }
+                    ev["repro"] = "a=" + show(nd, a()) + " b=" + show(nd, b()) + " c=" + show(nd, c()) + (newFam ? hexes(true) : "");
+                    emit(ev);
+                    continue;
                 }
-                else
+                // interpolation probe on (a, b): t = k/64
+                std::vector<int> K = {0, 64, 32, 8, 56, 1, 63, rng.below(65), rng.below(65)};
+                int ksn = rng.below(3) == 0 ? (rng.below(2) ? 0 : 32) : rng.below(65);
+                int kun = rng.below(3) == 0 ? (rng.below(2) ? 64 : 32) : rng.below(65);
+                if (p.s >= 0)
                 {
-                    // interpolation probe on (a, b): t = k/64
-                    std::vector<int> K = {0, 64, 32, 8, 56, 1, 63, rng.below(65), rng.below(65)};
-                    json ks = json::array(), inb = json::array(), dat = json::array(), alF = json::array(), alT = json::array();
-                    double dab = D(a(), b());
-                    Scoped p0(nd), p1(nd), pt(nd), af(nd), bt(nd);
-                    nd.sp->interpolate(a(), b(), 0.0, p0());
-                    nd.sp->interpolate(a(), b(), 1.0, p1());
-                    bool pp = false;
+                    ksn = p.s;
+                    kun = p.u;
+                }
+                const std::string repro = "a=" + show(nd, a()) + " b=" + show(nd, b()) + " s=" + std::to_string(ksn) + "/64 u=" +
+                                          std::to_string(kun) + "/64" + (newFam ? hexes(false) : "");
+                json ks = json::array(), inb = json::array(), dat = json::array(), alF = json::array(), alT = json::array();
+                if (nd.fam == "constrained")
+                {
+                    // endpoints and aliasing only.  interpolate() returns `from` when the discrete geodesic fails; whether
+                    // it succeeds is asked before and after (the atlas grows while it is traversed)
+                    auto *css = nd.sp->as<ob::ConstrainedStateSpace>();
+                    const bool ok1 = css->discreteGeodesic(a(), b(), true, nullptr);
+                    json dfrom = json::array(), dto = json::array();
+                    Scoped pt(nd), af(nd), bt(nd);
                     for (int k : K)
                     {
                         double t = k / 64.0;
                         nd.sp->interpolate(a(), b(), t, pt());
-                        pp = pp || hasPlusPiLeaf(nd, pt());
                         nd.sp->copyState(af(), a());
                         nd.sp->copyState(bt(), b());
                         nd.sp->interpolate(af(), b(), t, af());
                         nd.sp->interpolate(a(), bt(), t, bt());
                         ks.push_back(k);
                         inb.push_back(nd.sp->satisfiesBounds(pt()) ? 1 : 0);
-                        dat.push_back(fx(D(a(), pt()), nf));
+                        dfrom.push_back(fx(D(a(), pt()), nf));
+                        dto.push_back(fx(D(pt(), b()), nf));
+                        alF.push_back(fx(D(af(), pt()), nf));
+                        alT.push_back(fx(D(bt(), pt()), nf));
+                    }
+                    const bool ok2 = css->discreteGeodesic(a(), b(), true, nullptr);
+                    ++facts[ok1 && ok2 ? "constrained_geodesic_succeeded" : !ok1 && !ok2 ? "constrained_geodesic_failed" : "constrained_geodesic_unstable"];
+                    ev = json{{"e", "CInterp"}, {"cls", p.cls}, {"fab", fab}, {"dab", fx(D(a(), b()), nf)},
+                              {"ok1", ok1}, {"ok2", ok2}, {"ks", ks}, {"inb", inb}, {"dfrom", dfrom}, {"dto", dto},
+                              {"alFd", alF}, {"alTd", alT}, {"repro", repro}};
+                    emit(ev);
+                    continue;
+                }
+                double dab = D(a(), b());
+                if (nd.fam == "spacetime" && std::isinf(dab))
+                {
+                    // no motion within the speed limit joins the pair: interpolate() is still the compound's; only
+                    // endpoints, bounds and aliasing are required of it
+                    Scoped p0(nd), p1(nd), pt(nd), af(nd), bt(nd);
+                    nd.sp->interpolate(a(), b(), 0.0, p0());
+                    nd.sp->interpolate(a(), b(), 1.0, p1());
+                    for (int k : K)
+                    {
+                        double t = k / 64.0;
+                        nd.sp->interpolate(a(), b(), t, pt());
+                        nd.sp->copyState(af(), a());
+                        nd.sp->copyState(bt(), b());
+                        nd.sp->interpolate(af(), b(), t, af());
+                        nd.sp->interpolate(a(), bt(), t, bt());
+                        ks.push_back(k);
+                        inb.push_back(nd.sp->satisfiesBounds(pt()) ? 1 : 0);
                         alF.push_back(sameBits(nd, af(), pt()) ? 1 : 0);
                         alT.push_back(sameBits(nd, bt(), pt()) ? 1 : 0);
                     }
-                    int ksn = rng.below(3) == 0 ? (rng.below(2) ? 0 : 32) : rng.below(65);
-                    int kun = rng.below(3) == 0 ? (rng.below(2) ? 64 : 32) : rng.below(65);
-                    if (p.s >= 0)
-                    {
-                        ksn = p.s;
-                        kun = p.u;
-                    }
-                    double s = ksn / 64.0, u = kun / 64.0;
-                    Scoped ps(nd), pr2(nd), pq(nd);
-                    nd.sp->interpolate(a(), b(), s, ps());
-                    nd.sp->interpolate(ps(), b(), u, pr2());
-                    nd.sp->interpolate(a(), b(), s + (1.0 - s) * u, pq());
-                    ev = json{{"e", "Interp"}, {"cls", p.cls}, {"fab", fab},
-                              {"dab", fx(dab, nf)}, {"d0", fx(D(p0(), a()), nf)}, {"d1", fx(D(p1(), b()), nf)},
-                              {"ks", ks}, {"inb", inb}, {"dat", dat}, {"alF", alF}, {"alT", alT},
-                              {"s", ksn}, {"u", kun}, {"rep", fx(D(pr2(), pq()), nf)},
-                              {"inbS", nd.sp->satisfiesBounds(ps())}, {"inbR", nd.sp->satisfiesBounds(pr2())},
-                              // some interpolant of this probe carries the angle +pi (D2)
-                              {"plusPi", pp || hasPlusPiLeaf(nd, ps()) || hasPlusPiLeaf(nd, pr2())}};
-                    ev["repro"] = "a=" + show(nd, a()) + " b=" + show(nd, b()) + " s=" + std::to_string(ksn) + "/64 u=" + std::to_string(kun) + "/64";
+                    ev = json{{"e", "InterpBasic"}, {"cls", p.cls}, {"fab", fab}, {"d0", fx(D(p0(), a()), nf)},
+                              {"d1", fx(D(p1(), b()), nf)}, {"ks", ks}, {"inb", inb}, {"alF", alF}, {"alT", alT}, {"repro", repro}};
+                    ++facts["spacetime_interp_unreachable"];
+                    emit(ev);
+                    continue;
                 }
-                ev["nan"] = nf;
-                tr.emit(ev);
-                ++events;
-                ++perClass[p.cls];
-                if (nontriv)
-                    nontrivial.insert(fnv(sh.name + ev["repro"].get<std::string>()));
+                if (nd.fam == "spacetime")
+                    ++facts["spacetime_interp_reachable"];
+                Scoped p0(nd), p1(nd), pt(nd), af(nd), bt(nd);
+                nd.sp->interpolate(a(), b(), 0.0, p0());
+                nd.sp->interpolate(a(), b(), 1.0, p1());
+                bool pp = false;
+                for (int k : K)
+                {
+                    double t = k / 64.0;
+                    nd.sp->interpolate(a(), b(), t, pt());
+                    pp = pp || hasPlusPiLeaf(nd, pt());
+                    nd.sp->copyState(af(), a());
+                    nd.sp->copyState(bt(), b());
+                    nd.sp->interpolate(af(), b(), t, af());
+                    nd.sp->interpolate(a(), bt(), t, bt());
+                    ks.push_back(k);
+                    inb.push_back(nd.sp->satisfiesBounds(pt()) ? 1 : 0);
+                    dat.push_back(fx(D(a(), pt()), nf));
+                    alF.push_back(sameBits(nd, af(), pt()) ? 1 : 0);
+                    alT.push_back(sameBits(nd, bt(), pt()) ? 1 : 0);
+                }
+                double s = ksn / 64.0, u = kun / 64.0;
+                Scoped ps(nd), pr2(nd), pq(nd);
+                nd.sp->interpolate(a(), b(), s, ps());
+                nd.sp->interpolate(ps(), b(), u, pr2());
+                nd.sp->interpolate(a(), b(), s + (1.0 - s) * u, pq());
+                ev = json{{"e", "Interp"}, {"cls", p.cls}, {"fab", fab},
+                          {"dab", fx(dab, nf)}, {"d0", fx(D(p0(), a()), nf)}, {"d1", fx(D(p1(), b()), nf)},
+                          {"ks", ks}, {"inb", inb}, {"dat", dat}, {"alF", alF}, {"alT", alT},
+                          {"s", ksn}, {"u", kun}, {"rep", fx(D(pr2(), pq()), nf)},
+                          {"inbS", nd.sp->satisfiesBounds(ps())}, {"inbR", nd.sp->satisfiesBounds(pr2())},
+                          // some interpolant of this probe carries the angle +pi (D2)
+                          {"plusPi", pp || hasPlusPiLeaf(nd, ps()) || hasPlusPiLeaf(nd, pr2())}};
+                if (nd.fam == "airplane")
+                {
+                    // (1) distance() is the length of the path getPath() returns; (2) interpolate(from, to, t) is the point
+                    // at t of that same path (the overload taking the path); (3) the curve has no jumps: chords between
+                    // consecutive interpolants (t ascending, 0 and 1 included) against the path length; (4) pitch
+                    double plen = 0;
+                    const bool has = ap.pathLength(a(), b(), plen);
+                    ++facts[has ? "airplane_interp_with_path" : "airplane_interp_without_path"];
+                    std::set<int> sorted(K.begin(), K.end());
+                    json cks = json::array(), chord = json::array(), sameP = json::array(), pex = json::array();
+                    Scoped prev(nd), viaP(nd);
+                    bool first = true;
+                    for (int k : sorted)
+                    {
+                        double t = k / 64.0;
+                        nd.sp->interpolate(a(), b(), t, pt());
+                        cks.push_back(k);
+                        if (!first)
+                            chord.push_back(fx4(euclid3(prev(), pt()), nf));
+                        first = false;
+                        nd.sp->copyState(prev(), pt());
+                        nd.sp->copyState(viaP(), pt());
+                        sameP.push_back(!ap.viaPath(a(), b(), t, viaP()) || sameBits(nd, viaP(), pt()) ? 1 : 0);
+                        double ex = 0;
+                        if (ap.hasPitch)
+                            ex = std::max({0.0, pos3(pt())[3] - ap.pitchHi, ap.pitchLo - pos3(pt())[3]});
+                        pex.push_back(vt::tlcInt(std::llround(std::min(ex, 2.0) * 1e9)));
+                    }
+                    ev["nopath"] = !has;
+                    ev["plen"] = fx(has ? plen : dab, nf);
+                    ev["cks"] = cks;
+                    ev["chord4"] = chord;
+                    ev["dab4"] = fx4(dab, nf);
+                    ev["sameP"] = sameP;
+                    ev["pex"] = pex;
+                }
+                ev["repro"] = repro;
+                emit(ev);
             }
         }
     }
+    json fj = json::object();
+    for (auto &kv : facts)
+        fj[kv.first] = kv.second;
     std::cout << "RECORDED " << json{{"events", events}, {"lines", tr.count()}, {"skipped_out_of_bounds", skipped},
-                                      {"nontrivial", nontrivial.size()}, {"classes", perClass}}
+                                      {"nontrivial", nontrivial.size()}, {"classes", perClass}, {"facts", fj}}
                                     .dump()
               << std::endl;
     return 0;
